@@ -158,8 +158,8 @@ def run(ctx):
     cov = {
         "states": mc.distinct, "transitions": mc.generated,
         "traces_validated_against_impl": meta["runs"],
-        "evaluations": meta["runs"], "distinct_nontrivial": nontriv,
-        "rule": "clusters of 2-5 HA nodes (+cascade); every replica in one of 12 situation classes (member ok/dead/stopped/"
+        "evaluations": len(rows), "runs": meta["runs"], "distinct_nontrivial": nontriv,
+        "rule": "evaluations = rows judged (manager activations and list writes) of `runs` scenario runs; clusters of 2-5 HA nodes (+cascade); every replica in one of 12 situation classes (member ok/dead/stopped/"
                 "diverged/dubious/io-error/isolated, joiner ok/lagging with and without IO progress/dead, recovery-marked); "
                 "both adjustment orders; configured count 1-3; 9 rounds; then the same with the manager killed after, or "
                 "one call failing at, a call boundary of its activations (census; sampled in quick). One row per manager "
